@@ -338,7 +338,8 @@ func lexComment(l *lexer) stateFn {
 		return lexEOF
 	}
 
-	for unicode.IsSpace(rune(l.input[l.pos+i-1])) {
+	// trim trailing blanks byte-wise: a byte of a multi-byte character (e.g. 0x85, 0xA0) is not a space
+	for strings.IndexByte(" \t\r", l.input[l.pos+i-1]) >= 0 {
 		i -= 1
 	}
 	l.pos += i
